@@ -3169,9 +3169,12 @@ class MemRun:
 
     def explore(self, tree, cwd, calls, cons, on_done):
         """calls: [(method, [values])]; on_done(st, results, inner) is invoked per completed path"""
+        memfs, inner = mk_memfs(tree, cwd)
+        return self.explore_value(memfs, inner, calls, cons, on_done)
+
+    def explore_value(self, memfs, inner, calls, cons, on_done):
         from .mirsym.engine import State
         ex = self.ex
-        memfs, inner = mk_memfs(tree, cwd)
 
         def on_path(st):
             i = st.meta["i"]
@@ -4834,11 +4837,35 @@ def mk_tree_sym(shape, names, order):
     """shape: nested list of (name index, 'd' [children] | 'f');  names: {index: [char BV]};  order: 0 = listing in the given
     order, 1 = reversed (HashSet iteration order is arbitrary).  Returns (memfs, inner, flat) with flat = [(key chars, kind, depth, parent key)]"""
     entries, files, flat = [], [], []
+    link_kinds = {}
+
+    def kinds_of(node, path):
+        idx, kind, kids = node
+        here = path + ([idx] if idx is not None else [])
+        link_kinds[tuple(here)] = kind
+        if kind == "d":
+            for k in kids:
+                kinds_of(k, here)
+    kinds_of(shape, [])
 
     def add(node, parent_key, depth):
         idx, kind, kids = node
         key = T_("/") if idx is None else (list(parent_key) + ([] if len(parent_key) == 1 else T_("/")) + list(names[idx]))
         flat.append(dict(key=key, kind=kind, depth=depth, parent=parent_key, name=None if idx is None else names[idx]))
+        if kind == "l":
+            # kids = list of name indices spelling the target from the root
+            tkey = T_("/")
+            for ti in kids:
+                tkey = list(tkey) + ([] if len(tkey) == 1 else T_("/")) + list(names[ti])
+            up = T_("..") if depth == 2 else []
+            rel = (up if up else []) + ((T_("/") if up and kids else []) + [c for ti_n, ti in enumerate(kids) for c in ((T_("/") if ti_n else []) + list(names[ti]))])
+            tk = "d" if not kids else link_kinds[tuple(kids)]
+            flat[-1].update(target=tkey, tkind=tk)
+            e = Adt("MemfsEntry", None, None, [TP.PathBufT(list(key)), TP.PathBufT(list(tkey)), TP.PathBufT(list(rel)), B(tk == "d"), B(tk == "f"), B(True),
+                                               BV(32, False, 0o120777), BV(32, False, 1000), BV(32, False, 1000), B(False), B(False),
+                                               M.opt_some(None, MM.SetM([])) if tk == "d" else M.opt_none(None)])
+            entries.append((list(key), BoxRef(e)))
+            return
         if kind == "d":
             ch = [names[k[0]] for k in kids]
             if order:
@@ -4863,9 +4890,15 @@ def mk_tree_sym(shape, names, order):
 C08_SHAPE = (None, "d", [(0, "d", [(3, "f", []), (4, "d", [])]), (1, "f", []), (2, "d", [])])
 # / { 0: dir { 2: dir { 3: file } }, 1: file }
 C08_SHAPE_DEEP = (None, "d", [(0, "d", [(2, "d", [(3, "f", [])])]), (1, "f", [])])
+# / { 0: dir { 3: file }, 1: link -> /0, 2: file }
+C08_SHAPE_LINK = (None, "d", [(0, "d", [(3, "f", [])]), (1, "l", [0]), (2, "f", [])])
+# / { 0: dir { 1: link -> / } }   (a cycle when links are followed)
+C08_SHAPE_LOOP = (None, "d", [(0, "d", [(1, "l", [])])])
+# / { 0: file, 1: link -> /0 }
+C08_SHAPE_FLINK = (None, "d", [(0, "f", []), (1, "l", [0])])
 
 
-def c08_expected(ex, st, flat, filt, sort, contents_first, emin, emax):
+def c08_expected(ex, st, flat, filt, sort, contents_first, emin, emax, follow=False):
     """reference traversal: returns (sequence, exact?)  - exact only when siblings are sorted"""
     from .mirsym.values import bv_bin
     by_parent = {}
@@ -4902,21 +4935,31 @@ def c08_expected(ex, st, flat, filt, sort, contents_first, emin, emax):
 
     seq = []
 
-    def visit(n):
-        passes = n["depth"] >= emin and (filt == "none" or (filt == "dirs") == (n["kind"] == "d"))
-        descend = n["kind"] == "d" and n["depth"] < emax
-        if passes and not (contents_first and n["kind"] == "d"):
-            seq.append(n)
+    def find(key):
+        return [n for n in flat if len(n["key"]) == len(key) and all(a is b or (a.concrete and b.concrete and a.v == b.v) for a, b in zip(n["key"], key))][0]
+
+    def visit(n, depth, open_dirs):
+        isdir = n["kind"] == "d" or (n["kind"] == "l" and n["tkind"] == "d")
+        as_key = n["target"] if (n["kind"] == "l" and follow) else n["key"]
+        if n["kind"] == "l" and follow and isdir and any(k is n["target"] or (len(k) == len(n["target"]) == 1) for k in open_dirs):
+            seq.append(dict(err="LinkLooping"))
+            return
+        passes = depth >= emin and (filt == "none" or (filt == "dirs") == isdir)
+        descend = isdir and (n["kind"] == "d" or follow) and depth < emax
+        item = dict(n, key=as_key)
+        if passes and not (contents_first and isdir):
+            seq.append(item)
         if descend:
-            for k in order(kids_of(n)):
-                visit(k)
-        if passes and contents_first and n["kind"] == "d":
-            seq.append(n)
-    visit(flat[0])
+            tgt = n if n["kind"] == "d" else find(n["target"])
+            for k in order(kids_of(tgt)):
+                visit(k, depth + 1, open_dirs + [tgt["key"]])
+        if passes and contents_first and isdir:
+            seq.append(item)
+    visit(flat[0], 0, [])
     return seq
 
 
-def run_entries(ctx, prop, tag, shapes, sorts, filters=("none", "dirs", "files"), cfs=(False, True), dmax=3):
+def run_entries(ctx, prop, tag, shapes, sorts, filters=("none", "dirs", "files"), cfs=(False, True), dmax=3, follows=(False,)):
     from .mirsym.engine import State
     from .mirsym.values import bv_bin
     t0 = time.time()
@@ -4926,146 +4969,152 @@ def run_entries(ctx, prop, tag, shapes, sorts, filters=("none", "dirs", "files")
     R = lambda n: ex.auto.resolve(n) or (_ for _ in ()).throw(Unsupported("%s not found in the MIR dump" % n))
     f_entries = run.fn("entries")
     fns = dict(dirs=R("Entries::dirs"), files=R("Entries::files"), min_depth=R("Entries::min_depth"), max_depth=R("Entries::max_depth"),
-               name=R("Entries::sort_by_name"), dirs_first=R("Entries::dirs_first"), files_first=R("Entries::files_first"),
+               name=R("Entries::sort_by_name"), dirs_first=R("Entries::dirs_first"), files_first=R("Entries::files_first"), follow=R("Entries::follow"),
                contents_first=R("Entries::contents_first"), into_iter=R("<Entries as IntoIterator>::into_iter"), next=R("<EntriesIter as Iterator>::next"))
-    for si, (shape, nnames) in enumerate(shapes):
-        for order in (0, 1):
-            for filt in filters:
-                for sort in sorts:
-                    for cf_ in cfs:
-                        sid = "%s_s%d_o%d_%s_%s_%d" % (tag, si, order, filt, sort, int(cf_))
-                        names, cons, groups = {}, [], {}
-                        for k in range(nnames):
-                            c, cc = sym_text(solver, "%s_n%d" % (sid, k), 1, ascii_only=True)
-                            cons += cc + ["(bvuge %s #x00000030)" % c[0].v, "(bvule %s #x0000007a)" % c[0].v]
-                            names[k] = c
-                            groups["name%d" % k] = c
-                        # sibling names are distinct
-                        def sib(node):
-                            ks = [k[0] for k in node[2]]
-                            for i in range(len(ks)):
-                                for j in range(i + 1, len(ks)):
-                                    cons.append("(not (= %s %s))" % (names[ks[i]][0].v, names[ks[j]][0].v))
-                            for k in node[2]:
-                                sib(k)
-                        sib(shape)
-                        for nm in ("dmin", "dmax"):
-                            solver.declare("%s_%s" % (sid, nm), "(_ BitVec 64)")
-                            cons.append("(or (bvule %s_%s (_ bv%d 64)) (= %s_%s #xffffffffffffffff))" % (sid, nm, dmax, sid, nm))
-                        dmin_v, dmax_v = BV(64, False, "%s_dmin" % sid), BV(64, False, "%s_dmax" % sid)
-                        memfs, inner, flat = mk_tree_sym(shape, names, order)
-                        steps = ["entries", "min_depth", "max_depth"] + ([filt] if filt != "none" else []) + ([sort] if sort != "none" else []) + \
-                                (["contents_first"] if cf_ else []) + ["into_iter"]
+    import itertools
+    for (si, (shape, nnames)), order, filt, sort, cf_, fol in itertools.product(enumerate(shapes), (0, 1), filters, sorts, cfs, follows):
+        sid = "%s_s%d_o%d_%s_%s_%d_%d" % (tag, si, order, filt, sort, int(cf_), int(fol))
+        names, cons, groups = {}, [], {}
+        for k in range(nnames):
+            c, cc = sym_text(solver, "%s_n%d" % (sid, k), 1, ascii_only=True)
+            cons += cc + ["(bvuge %s #x00000030)" % c[0].v, "(bvule %s #x0000007a)" % c[0].v]
+            names[k] = c
+            groups["name%d" % k] = c
 
-                        def on_path(st, steps=steps, flat=flat, filt=filt, sort=sort, cf_=cf_, groups=groups, dmin_v=dmin_v, dmax_v=dmax_v, sid=sid, order=order, si=si):
-                            i = st.meta["i"]
-                            meta = dict(opts=dict(filter=filt, sort=sort, contents_first=cf_, listing_order=order, shape=si), where="EntriesIter")
+        def sib(node):  # sibling names are distinct
+            if node[1] != "d":
+                return
+            ks = [k[0] for k in node[2]]
+            for i in range(len(ks)):
+                for j in range(i + 1, len(ks)):
+                    cons.append("(not (= %s %s))" % (names[ks[i]][0].v, names[ks[j]][0].v))
+            for k in node[2]:
+                sib(k)
+        sib(shape)
+        for nm in ("dmin", "dmax"):
+            solver.declare("%s_%s" % (sid, nm), "(_ BitVec 64)")
+            cons.append("(or (bvule %s_%s (_ bv%d 64)) (= %s_%s #xffffffffffffffff))" % (sid, nm, dmax, sid, nm))
+        dmin_v, dmax_v = BV(64, False, "%s_dmin" % sid), BV(64, False, "%s_dmax" % sid)
+        memfs, inner, flat = mk_tree_sym(shape, names, order)
+        steps = ["entries", "min_depth", "max_depth"] + ([filt] if filt != "none" else []) + ([sort] if sort != "none" else []) + \
+                (["follow"] if fol else []) + (["contents_first"] if cf_ else []) + ["into_iter"]
+        desc_opts = "filter=%s sort=%s contents_first=%s follow=%s" % (filt, sort, cf_, fol)
+        meta = dict(opts=dict(filter=filt, sort=sort, contents_first=cf_, follow=fol, listing_order=order, shape=si), where="EntriesIter")
 
-                            def cex(extra):
-                                m = text_model(ex, st, groups, extra) or {}
-                                r, mod = ex.solver.check(st.pc + extra, want_model=[dmin_v.v, dmax_v.v])
-                                if r == "sat":
-                                    m["min_depth"], m["max_depth"] = parse_smt_int(mod[dmin_v.v]), parse_smt_int(mod[dmax_v.v])
-                                return m
-                            if st.panic or st.bound_hit:
-                                ob.total += 1
-                                ob.failures.append(dict(kind="panic" if st.panic else "bound", cex=cex([]),
-                                                        desc="C12: traversal panics/loops: %s" % (st.panic or st.bound_hit), **meta))
-                                return
-                            cur = st.retval if i >= 0 else None
-                            if i >= 0 and steps[min(i, len(steps) - 1)] == "entries":
-                                if not (isinstance(cur, Adt) and cur.variant == 0):
-                                    ob.total += 1
-                                    ob.failures.append(dict(kind="functional", cex=cex([]), desc="C08: entries('/') fails", **meta))
-                                    return
-                                cur = cur.fields[0]
-                            i += 1
-                            if i < len(steps):
-                                s = steps[i]
-                                if s == "entries":
-                                    st2 = ex.start(f_entries, [BoxRef(st.meta["memfs"]), BoxRef(M.SStr(T_("/")))])
-                                elif s == "min_depth":
-                                    st2 = ex.start(fns[s], [cur, dmin_v])
-                                elif s == "max_depth":
-                                    st2 = ex.start(fns[s], [cur, dmax_v])
-                                else:
-                                    st2 = ex.start(fns[s], [cur])
-                                st2.pc, st2.meta = list(st.pc), dict(st.meta)
-                                st2.meta["i"] = i
-                                return [st2]
-                            # iteration phase
-                            if i == len(steps):
-                                st.meta["iter"] = BoxRef(cur)
-                                st.meta["got"] = []
-                            else:
-                                if cur.variant == 0:
-                                    return finish_path(st, meta, cex)
-                                item = cur.fields[0]
-                                if not (isinstance(item, Adt) and item.variant == 0):
-                                    ob.total += 1
-                                    ob.failures.append(dict(kind="functional", cex=cex([]), desc="C08: the traversal yields an error: %r" % (item,), **meta))
-                                    return
-                                ent = item.fields[0]
-                                me = ent.fields[0] if ent.ty == "VfsEntry" else ent
-                                st.meta["got"] = st.meta["got"] + [dict(path=list(ex.deref(st, me).fields[0].chars) if isinstance(me, (Ref, BoxRef)) else list(me.fields[0].chars),
-                                                                        dir=(ex.deref(st, me) if isinstance(me, (Ref, BoxRef)) else me).fields[3])]
-                                if len(st.meta["got"]) > 2 * len(flat) + 2:
-                                    ob.total += 1
-                                    ob.failures.append(dict(kind="functional", cex=cex([]), desc="C08: the traversal yields more entries than exist (does not terminate?)", **meta))
-                                    return
-                            st2 = ex.start(fns["next"], [st.meta["iter"]])
-                            st2.pc, st2.meta = list(st.pc), dict(st.meta)
-                            st2.meta["i"] = i
-                            return [st2]
+        def mk_cex(st, groups=groups, dmin_v=dmin_v, dmax_v=dmax_v):
+            def cex(extra):
+                m = text_model(ex, st, groups, extra) or {}
+                r, mod = ex.solver.check(st.pc + extra, want_model=[dmin_v.v, dmax_v.v])
+                if r == "sat":
+                    m["min_depth"], m["max_depth"] = parse_smt_int(mod[dmin_v.v]), parse_smt_int(mod[dmax_v.v])
+                return m
+            return cex
 
-                        def finish_path(st, meta, cex, flat=flat, filt=filt, sort=sort, cf_=cf_, dmin_v=dmin_v, dmax_v=dmax_v):
-                            got = st.meta["got"]
-                            # effective depth window: min_depth(m) then max_depth(M) clamps max up to min
-                            UMAX = (1 << 64) - 1
-                            def conc(v):
-                                for k in list(range(dmax + 1)) + [UMAX]:
-                                    if ex.decide(st, bv_bin("Eq", v, BV(64, False, k))):
-                                        return k
-                                raise Unsupported("depth outside the bound")
-                            m, Mx = conc(dmin_v), conc(dmax_v)
-                            emin, emax = m, max(Mx, m)
-                            exp = c08_expected(ex, st, flat, filt, sort, cf_, emin, emax)
-                            desc_opts = "filter=%s sort=%s contents_first=%s" % (filt, sort, cf_)
-                            # set equality, each exactly once
-                            used = [False] * len(got)
-                            missing, ok_once = [], True
-                            for n in exp:
-                                hit = [j for j, g in enumerate(got) if ex.decide(st, TP.path_eq_text(ex, st, g["path"], n["key"]))]
-                                if len(hit) != 1:
-                                    ok_once = False
-                                for j in hit:
-                                    used[j] = True
-                            ob.prove(ex, st, "C08: the traversal yields exactly the entries the options denote, each once (%s)" % desc_opts,
-                                     B(ok_once and all(used) and len(got) == len(exp)), cex) or ob.failures[-1].update(
-                                got=["".join(chr(c.v) if c.concrete else "?" for c in g["path"]) for g in got], **meta)
-                            if not (ok_once and all(used) and len(got) == len(exp)):
-                                return
-                            pos = lambda key: [j for j, g in enumerate(got) if ex.decide(st, TP.path_eq_text(ex, st, g["path"], key))][0]
-                            # parents before contents (after them with contents_first)
-                            okp = True
-                            for n in exp:
-                                par = [p for p in exp if n["parent"] is p["key"]]
-                                if par:
-                                    okp = okp and ((pos(par[0]["key"]) > pos(n["key"])) if cf_ else (pos(par[0]["key"]) < pos(n["key"])))
-                            ob.prove(ex, st, "C08: parents come before their contents (after them with contents_first) (%s)" % desc_opts, B(okp), cex) or \
-                                ob.failures[-1].update(**meta)
-                            if sort != "none":
-                                same = all(ex.decide(st, TP.path_eq_text(ex, st, g["path"], n["key"])) for g, n in zip(got, exp))
-                                ob.prove(ex, st, "C08: sorted traversal yields siblings in name order%s, depth first (%s)" % (
-                                    " grouped by kind" if sort != "name" else "", desc_opts), B(same), cex) or ob.failures[-1].update(**meta)
-                            if len(ob.samples) < 4:
-                                ob.samples.append(dict(options=desc_opts, min_depth=m, max_depth=Mx, yielded=len(got), names=cex([])))
+        def finish_path(st, cex, flat=flat, filt=filt, sort=sort, cf_=cf_, fol=fol, dmin_v=dmin_v, dmax_v=dmax_v, meta=meta, desc_opts=desc_opts):
+            got = st.meta["got"]
+            UMAX = (1 << 64) - 1
 
-                        st0 = State()
-                        st0.done = True
-                        st0.meta = dict(i=-1, memfs=memfs, inner=inner)
-                        st0.pc = list(cons)
-                        ex.explore(st0, on_path)
+            def conc(v):
+                for k in list(range(dmax + 1)) + [UMAX]:
+                    if ex.decide(st, bv_bin("Eq", v, BV(64, False, k))):
+                        return k
+                raise Unsupported("depth outside the bound")
+            m, Mx = conc(dmin_v), conc(dmax_v)
+            emin, emax = m, max(Mx, m)  # min_depth(m) then max_depth(M): max is raised to min
+            exp = c08_expected(ex, st, flat, filt, sort, cf_, emin, emax, fol)
+            same_item = lambda g, n: (g.get("err") == n.get("err")) if ("err" in g or "err" in n) else ex.decide(st, TP.path_eq_text(ex, st, g["path"], n["key"]))
+            used = [False] * len(got)
+            ok = len(got) == len(exp)
+            for n in exp:
+                hit = [j for j, g in enumerate(got) if not used[j] and same_item(g, n)]
+                if not hit:
+                    ok = False
+                    break
+                used[hit[0]] = True
+            show = lambda: [g.get("err") or "".join(chr(c.v) if c.concrete else "?" for c in g["path"]) for g in got]
+            ob.prove(ex, st, "C08: the traversal terminates and yields exactly the entries the options denote, each as often as denoted (%s)" % desc_opts,
+                     B(ok and all(used)), cex) or ob.failures[-1].update(got=show(), **meta)
+            if not (ok and all(used)):
+                return
+            if not fol:
+                pos = lambda key: [j for j, g in enumerate(got) if "path" in g and ex.decide(st, TP.path_eq_text(ex, st, g["path"], key))][0]
+                okp = True
+                for n in exp:
+                    par = [p for p in exp if n.get("parent") is p["key"]]
+                    if par:
+                        okp = okp and ((pos(par[0]["key"]) > pos(n["key"])) if cf_ else (pos(par[0]["key"]) < pos(n["key"])))
+                ob.prove(ex, st, "C08: parents come before their contents (after them with contents_first) (%s)" % desc_opts, B(okp), cex) or \
+                    ob.failures[-1].update(**meta)
+                if sort != "none":
+                    same = all(same_item(g, n) for g, n in zip(got, exp))
+                    ob.prove(ex, st, "C08: sorted traversal yields siblings in name order%s, depth first (%s)" % (
+                        " grouped by kind" if sort != "name" else "", desc_opts), B(same), cex) or ob.failures[-1].update(got=show(), **meta)
+            if len(ob.samples) < 4:
+                ob.samples.append(dict(options=desc_opts, min_depth=m, max_depth=Mx, yielded=len(got), names=cex([])))
+
+        def on_path(st, steps=steps, flat=flat, meta=meta, dmin_v=dmin_v, dmax_v=dmax_v, mk_cex=mk_cex, finish_path=finish_path):
+            i = st.meta["i"]
+            cex = mk_cex(st)
+            if st.panic or st.bound_hit:
+                ob.total += 1
+                ob.failures.append(dict(kind="panic" if st.panic else "bound", cex=cex([]), desc="C12: traversal panics/loops: %s" % (st.panic or st.bound_hit), **meta))
+                return
+            cur = st.retval if i >= 0 else None
+            if i >= 0 and i < len(steps) and steps[i] == "entries":
+                if not (isinstance(cur, Adt) and cur.variant == 0):
+                    ob.total += 1
+                    ob.failures.append(dict(kind="functional", cex=cex([]), desc="C08: entries('/') fails", **meta))
+                    return
+                cur = cur.fields[0]
+            i += 1
+            if i < len(steps):
+                s = steps[i]
+                if s == "entries":
+                    st2 = ex.start(f_entries, [BoxRef(st.meta["memfs"]), BoxRef(M.SStr(T_("/")))])
+                elif s == "min_depth":
+                    st2 = ex.start(fns[s], [cur, dmin_v])
+                elif s == "max_depth":
+                    st2 = ex.start(fns[s], [cur, dmax_v])
+                elif s == "follow":
+                    st2 = ex.start(fns[s], [cur, B(True)])
+                else:
+                    st2 = ex.start(fns[s], [cur])
+                st2.pc, st2.meta = list(st.pc), dict(st.meta)
+                st2.meta["i"] = i
+                return [st2]
+            if i == len(steps):
+                st.meta["iter"] = BoxRef(cur)
+                st.meta["got"] = []
+            else:
+                if cur.variant == 0:
+                    return finish_path(st, cex)
+                item = cur.fields[0]
+                if isinstance(item, Adt) and item.variant == 0:
+                    ent = item.fields[0]
+                    me = ent.fields[0] if ent.ty == "VfsEntry" else ent
+                    me = ex.deref(st, me) if isinstance(me, (Ref, BoxRef)) else me
+                    st.meta["got"] = st.meta["got"] + [dict(path=list(me.fields[0].chars), dir=me.fields[3])]
+                else:
+                    e = item.fields[0] if isinstance(item, Adt) and item.fields else item
+                    nm = None
+                    while isinstance(e, Adt):
+                        nm = e.vname or nm
+                        e = e.fields[0] if e.fields and isinstance(e.fields[0], Adt) else None
+                    st.meta["got"] = st.meta["got"] + [dict(err={"link_looping": "LinkLooping"}.get(nm, nm or "error"))]
+                if len(st.meta["got"]) > 3 * len(flat) + 3:
+                    ob.total += 1
+                    ob.failures.append(dict(kind="functional", cex=cex([]), desc="C08: the traversal yields more entries than can exist (does not terminate?)", **meta))
+                    return
+            st2 = ex.start(fns["next"], [st.meta["iter"]])
+            st2.pc, st2.meta = list(st.pc), dict(st.meta)
+            st2.meta["i"] = i
+            return [st2]
+
+        st0 = State()
+        st0.done = True
+        st0.meta = dict(i=-1, memfs=memfs, inner=inner)
+        st0.pc = list(cons)
+        ex.explore(st0, on_path)
     seen = set()
     for f in ob.failures:
         if f["kind"] == "bound" or not f.get("cex"):
@@ -5090,45 +5139,67 @@ def c08_replay_src(f, shapes):
     o, c = f["opts"], f["cex"]
     shape = shapes[o["shape"]][0]
     names = {int(k[4:]): v for k, v in c.items() if k.startswith("name")}
-    mk = []
+    mk, links = [], []
 
     def add(node, parent):
         idx, kind, kids = node
         p = "/" if idx is None else (parent.rstrip("/") + "/" + names[idx])
+        if kind == "l":
+            links.append('    v.symlink(%s, %s).unwrap();' % (rs_str(p), rs_str("/" + "/".join(names[t] for t in kids))))
+            return
         if idx is not None:
             mk.append('    v.%s(%s).unwrap();' % ("mkdir_p" if kind == "d" else "mkfile", rs_str(p)))
         for k in (kids if not o["listing_order"] else kids[::-1]):
             add(k, p)
     add(shape, "")
-    chain = ".min_depth(%s).max_depth(%s)" % tuple("usize::MAX" if c.get(k, 0) > 1000 else str(c.get(k, 0)) for k in ("min_depth", "max_depth"))
+    dep = lambda k: "usize::MAX" if c.get(k, 0) > 1000 else str(c.get(k, 0))
+    chain = ".min_depth(%s).max_depth(%s)" % (dep("min_depth"), dep("max_depth"))
     if o["filter"] != "none":
         chain += ".%s()" % o["filter"]
     if o["sort"] != "none":
         chain += ".%s()" % ("sort_by_name" if o["sort"] == "name" else o["sort"])
+    if o.get("follow"):
+        chain += ".follow(true)"
     if o["contents_first"]:
         chain += ".contents_first()"
     return '''use rivia::prelude::*;
-use std::collections::BTreeMap;
 
 // reference traversal over a plain tree (std only)
-struct Node { path: String, dir: bool, kids: Vec<Node> }
-fn build(v: &Memfs, p: &str) -> Node {
-    let dir = v.is_dir(p);
-    let mut kids = vec![];
-    if dir { for k in v.paths(p).unwrap() { kids.push(build(v, k.to_str().unwrap())); } }
-    Node { path: p.to_string(), dir, kids }
-}
-fn visit(n: &Node, depth: usize, emin: usize, emax: usize, filt: &str, sort: &str, cf: bool, out: &mut Vec<String>) {
-    let passes = depth >= emin && (filt == "none" || (filt == "dirs") == n.dir);
-    if passes && !(cf && n.dir) { out.push(n.path.clone()); }
-    if n.dir && depth < emax {
-        let mut ks: Vec<&Node> = n.kids.iter().collect();
-        ks.sort_by(|a, b| a.path.cmp(&b.path));
-        if sort == "dirs_first" { ks.sort_by_key(|k| !k.dir); }
-        if sort == "files_first" { ks.sort_by_key(|k| k.dir); }
-        for k in ks { visit(k, depth + 1, emin, emax, filt, sort, cf, out); }
+#[derive(Clone)]
+struct Node { path: String, dir: bool, link: Option<String>, kids: Vec<String> }
+fn snapshot(v: &Memfs) -> std::collections::BTreeMap<String, Node> {
+    let mut m = std::collections::BTreeMap::new();
+    let mut todo = vec!["/".to_string()];
+    while let Some(p) = todo.pop() {
+        let link = if v.is_symlink(&p) { Some(v.readlink_abs(&p).unwrap().to_str().unwrap().to_string()) } else { None };
+        let dir = link.is_none() && v.is_dir(&p);
+        let mut kids = vec![];
+        if dir { for k in v.paths(&p).unwrap() { kids.push(k.to_str().unwrap().to_string()); todo.push(k.to_str().unwrap().to_string()); } }
+        m.insert(p.clone(), Node { path: p, dir, link, kids });
     }
-    if passes && cf && n.dir { out.push(n.path.clone()); }
+    m
+}
+struct Opt { emin: usize, emax: usize, filt: &'static str, sort: &'static str, cf: bool, follow: bool }
+fn visit(m: &std::collections::BTreeMap<String, Node>, n: &Node, depth: usize, o: &Opt, open: &mut Vec<String>, out: &mut Vec<String>) {
+    let target = n.link.as_ref().and_then(|t| m.get(t));
+    let isdir = n.dir || target.map(|t| t.dir).unwrap_or(false);
+    let shown = if n.link.is_some() && o.follow { n.link.clone().unwrap() } else { n.path.clone() };
+    if n.link.is_some() && o.follow && isdir && open.contains(n.link.as_ref().unwrap()) { out.push("LinkLooping".to_string()); return; }
+    let passes = depth >= o.emin && (o.filt == "none" || (o.filt == "dirs") == isdir);
+    if passes && !(o.cf && isdir) { out.push(shown.clone()); }
+    if isdir && (n.link.is_none() || o.follow) && depth < o.emax {
+        let t = if n.link.is_some() { target.unwrap() } else { n };
+        let mut ks: Vec<&Node> = t.kids.iter().map(|k| &m[k]).collect();
+        let name = |k: &Node| -> String { let p = if k.link.is_some() && o.follow { k.link.clone().unwrap() } else { k.path.clone() }; p.rsplit('/').next().unwrap().to_string() };
+        let kdir = |k: &Node| -> bool { k.dir || k.link.as_ref().and_then(|t| m.get(t)).map(|t| t.dir).unwrap_or(false) };
+        ks.sort_by(|a, b| name(a).cmp(&name(b)));
+        if o.sort == "dirs_first" { ks.sort_by_key(|k| !kdir(k)); }
+        if o.sort == "files_first" { ks.sort_by_key(|k| kdir(k)); }
+        open.push(t.path.clone());
+        for k in ks { visit(m, k, depth + 1, o, open, out); }
+        open.pop();
+    }
+    if passes && o.cf && isdir { out.push(shown); }
 }
 
 #[test]
@@ -5136,22 +5207,35 @@ fn replay_entries() {
     // %s
     let v = Memfs::new();
 %s
-    let (m, mx): (usize, usize) = (%s, %s);
-    let got: Vec<String> = v.entries("/").unwrap()%s.into_iter().map(|e| e.unwrap().path().to_str().unwrap().to_string()).collect();
+%s
+    let (mn, mx): (usize, usize) = (%s, %s);
+    let (tx, rx) = std::sync::mpsc::channel();
+    let v2 = v.clone();
+    std::thread::spawn(move || {
+        let got: Vec<String> = v2.entries("/").unwrap()%s.into_iter().take(200)
+            .map(|e| match e { Ok(x) => x.path().to_str().unwrap().to_string(), Err(e) => if e.to_string().contains("ink looping") { "LinkLooping".to_string() } else { format!("error: {}", e) } }).collect();
+        let _ = tx.send(got);
+    });
+    let got = rx.recv_timeout(std::time::Duration::from_secs(20)).expect("C08: the traversal does not terminate");
+    assert!(got.len() < 200, "C08: the traversal does not terminate: {:?}", &got[..12]);
+    let o = Opt { emin: mn, emax: std::cmp::max(mn, mx), filt: %s, sort: %s, cf: %s, follow: %s };
+    let m = snapshot(&v);
     let mut exp = vec![];
-    visit(&build(&v, "/"), 0, m, std::cmp::max(m, mx), %s, %s, %s, &mut exp);
+    visit(&m, &m["/"], 0, &o, &mut vec![], &mut exp);
     let (mut a, mut b) = (got.clone(), exp.clone());
     a.sort(); b.sort();
-    assert_eq!(a, b, "C08: yielded set differs from what the options denote (got {:?})", got);
-    let pos: BTreeMap<&String, usize> = got.iter().enumerate().map(|(i, p)| (p, i)).collect();
-    for p in &got {
-        let par = std::path::Path::new(p).parent().map(|x| x.to_str().unwrap().to_string());
-        if let Some(par) = par { if let Some(j) = pos.get(&par) { assert!(if %s { *j > pos[p] } else { *j < pos[p] }, "C08: parent/content order of {} in {:?}", p, got); } }
+    assert_eq!(a, b, "C08: yielded multiset differs from what the options denote (got {:?})", got);
+    if !o.follow {
+        for (i, p) in got.iter().enumerate() {
+            if let Some(par) = std::path::Path::new(p).parent().map(|x| x.to_str().unwrap().to_string()) {
+                if let Some(j) = got.iter().position(|x| *x == par) { assert!(if o.cf { j > i } else { j < i }, "C08: parent/content order of {} in {:?}", p, got); }
+            }
+        }
+        if o.sort != "none" { assert_eq!(got, exp, "C08: sorted traversal order"); }
     }
-    if %s != "none" { assert_eq!(got, exp, "C08: sorted traversal order"); }
 }
-''' % (f["desc"], "\n".join(mk), "usize::MAX" if c.get("min_depth", 0) > 1000 else c.get("min_depth", 0), "usize::MAX" if c.get("max_depth", 0) > 1000 else c.get("max_depth", 0),
-       chain, rs_str(o["filter"]), rs_str(o["sort"]), "true" if o["contents_first"] else "false", "true" if o["contents_first"] else "false", rs_str(o["sort"]))
+''' % (f["desc"], "\n".join(mk), "\n".join(links), dep("min_depth"), dep("max_depth"), chain, rs_str(o["filter"]), rs_str(o["sort"]),
+       "true" if o["contents_first"] else "false", "true" if o.get("follow") else "false")
 
 
 def _mk_c08(name, tier, shapes, sorts, **kw):
@@ -5165,7 +5249,136 @@ def _mk_c08(name, tier, shapes, sorts, **kw):
 
 
 
+def _mk_c08_links(name, tier, sorts, dmax):
+    @job(name, ["C08", "C12"], tier, functions=C08_FUNCS + ["MemfsEntry::follow (path/alt swap), link-loop detection in EntriesIter::process"],
+         bounds="Memfs only; trees {/{d{f}, link->d, f}}, {/{d{link->/}}} (a cycle), {/{f, link->f}} with symbolic one-char names, both listing orders; follow in {false,true} x sort in %s x "
+                "contents_first in {false,true}, no kind filter, min_depth/max_depth symbolic in 0..=%d or usize::MAX; with follow only the multiset of yielded paths/errors is compared" % (list(sorts), dmax))
+    def f(ctx, prop):
+        return run_entries(ctx, prop, name, [(C08_SHAPE_LINK, 4), (C08_SHAPE_LOOP, 2), (C08_SHAPE_FLINK, 2)], sorts, filters=("none",), dmax=dmax, follows=(False, True))
+    return f
+
+
+_mk_c08_links("c08_links", "quick", ("none", "name"), 3)
+_mk_c08_links("c08_links_grouped", "thorough", ("dirs_first", "files_first"), 3)
+
+
 for _s in ("none", "name", "dirs_first", "files_first"):
     for _f in ("none", "dirs", "files"):
         _mk_c08("c08_entries_%s_%s" % (_s, _f), "quick", [(C08_SHAPE, 5)], (_s,), filters=(_f,), dmax=2)
         _mk_c08("c08_entries_deep_%s_%s" % (_s, _f), "thorough", [(C08_SHAPE_DEEP, 4)], (_s,), filters=(_f,), dmax=4)
+
+
+@job("c08_wrappers", ["C08", "C12"], "quick",
+     functions=["Memfs::{paths,dirs,files,all_paths,all_dirs,all_files,is_dir} on top of the traversal (real MIR)"],
+     bounds="Memfs only; tree {/{d{f,d},f,d}} with symbolic one-char names (siblings distinct), both listing orders; argument '/' and the first sub-directory; no links")
+def c08_wrappers(ctx, prop):
+    from .mirsym.values import bv_bin
+    t0 = time.time()
+    run = MemRun(ctx, "c08_wrappers", visits=600)
+    ex, ob, solver = run.ex, run.ob, run.solver
+    unit = dict(status="pass", failures=[])
+    for order in (0, 1):
+        for arg_i in (0, 1):
+            sid = "c08w_%d_%d" % (order, arg_i)
+            names, cons, groups = {}, [], {}
+            for k in range(5):
+                c, cc = sym_text(solver, "%s_n%d" % (sid, k), 1, ascii_only=True)
+                cons += cc + ["(bvuge %s #x00000030)" % c[0].v, "(bvule %s #x0000007a)" % c[0].v]
+                names[k] = c
+                groups["name%d" % k] = c
+            for a, b in ((0, 1), (0, 2), (1, 2), (3, 4)):
+                cons.append("(not (= %s %s))" % (names[a][0].v, names[b][0].v))
+            memfs, inner, flat = mk_tree_sym(C08_SHAPE, names, order)
+            arg = T_("/") if arg_i == 0 else T_("/") + list(names[0])
+            root = [n for n in flat if n["key"] is (flat[0]["key"] if arg_i == 0 else [m for m in flat if m["name"] is names[0]][0]["key"])][0]
+            meths = ["paths", "dirs", "files", "all_paths", "all_dirs", "all_files"]
+            calls = [(m, [BoxRef(M.SStr(list(arg)))]) for m in meths]
+
+            def on_done(st, results, inner_, i, flat=flat, root=root, groups=groups, order=order, arg_i=arg_i, meths=meths):
+                cf = lambda extra: text_model(ex, st, groups, extra)
+                meta = dict(opts=dict(listing_order=order, arg=arg_i), where="Memfs")
+                bad = [r for r in results if r[0] in ("panic", "bound")]
+                if bad:
+                    ob.total += 1
+                    ob.failures.append(dict(kind="panic" if bad[0][0] == "panic" else "bound", cex=cf([]), desc="C12: listing wrapper panics/loops: %s" % bad[0][1], **meta))
+                    return
+                for m, (rk, rv) in zip(meths, results):
+                    if not (isinstance(rv, Adt) and rv.variant == 0):
+                        ob.total += 1
+                        ob.failures.append(dict(kind="functional", cex=cf([]), desc="C08: %s fails on a directory" % m, **meta))
+                        continue
+                    got = [list(TP.text_of(ex, st, x)) if hasattr(TP, "text_of") else list(M._obj(ex, st, x).chars) for x in M._obj(ex, st, rv.fields[0]).items]
+                    filt = "dirs" if m.endswith("dirs") else "files" if m.endswith("files") else "none"
+                    sub = [dict(n, depth=n["depth"] - root["depth"]) for n in flat]
+                    # reference: the sorted traversal below the argument, argument excluded (depth >= 1), one level unless all_*
+                    exp = c08_expected_from(ex, st, sub, root, filt, 1, (1 << 64) if m.startswith("all_") else 1)
+                    same = len(got) == len(exp) and all(ex.decide(st, TP.path_eq_text(ex, st, g, n["key"])) for g, n in zip(got, exp))
+                    ob.prove(ex, st, "C08: %s returns the absolute, distinct, name-sorted paths below the argument that its name denotes" % m, B(same), cf) or \
+                        ob.failures[-1].update(method=m, got=["".join(chr(c.v) if c.concrete else "?" for c in g) for g in got], **meta)
+                if len(ob.samples) < 3:
+                    ob.samples.append(dict(arg=arg_i, names=cf([])))
+
+            run.explore_value(memfs, inner, calls, cons, on_done)
+    seen = set()
+    for f in ob.failures:
+        if f["kind"] == "bound" or not f.get("cex"):
+            unit["status"], unit["why"] = "inconclusive", f["desc"]
+            continue
+        key = (f["desc"], tuple(sorted(f["opts"].items())))
+        if key in seen or len(seen) >= 4:
+            continue
+        seen.add(key)
+        c, o = f["cex"], f["opts"]
+        nm = {int(k[4:]): v for k, v in c.items() if k.startswith("name")}
+        mk = ['v.mkdir_p("/%s/%s").unwrap();' % (nm[0], nm[4]), 'v.mkfile("/%s/%s").unwrap();' % (nm[0], nm[3]), 'v.mkfile("/%s").unwrap();' % nm[1], 'v.mkdir_p("/%s").unwrap();' % nm[2]]
+        if o["listing_order"]:
+            mk = mk[::-1]
+        src = '''use rivia::prelude::*;
+fn walk(v: &Memfs, p: &std::path::Path, all: bool, out: &mut Vec<std::path::PathBuf>) {
+    let mut kids: Vec<std::path::PathBuf> = v.entries(p).unwrap().min_depth(1).max_depth(1).into_iter().map(|e| e.unwrap().path_buf()).collect();
+    kids.sort();
+    for k in kids { out.push(k.clone()); if all && v.is_dir(&k) { walk(v, &k, all, out); } }
+}
+#[test]
+fn replay_wrappers() {
+    // %s
+    let v = Memfs::new();
+    %s
+    let arg = std::path::PathBuf::from(%s);
+    for all in [false, true] {
+        let mut exp = vec![];
+        walk(&v, &arg, all, &mut exp);
+        let (p, d, f) = if all { (v.all_paths(&arg), v.all_dirs(&arg), v.all_files(&arg)) } else { (v.paths(&arg), v.dirs(&arg), v.files(&arg)) };
+        assert_eq!(p.unwrap(), exp, "C08: paths/all_paths");
+        assert_eq!(d.unwrap(), exp.iter().filter(|x| v.is_dir(x)).cloned().collect::<Vec<_>>(), "C08: dirs/all_dirs");
+        assert_eq!(f.unwrap(), exp.iter().filter(|x| v.is_file(x)).cloned().collect::<Vec<_>>(), "C08: files/all_files");
+    }
+}
+''' % (f["desc"], "\n    ".join(mk), rs_str("/" if o["arg"] == 0 else "/" + nm[0]))
+        r = native_test(src, ctx.logdir, "c08w_%d" % len(seen))
+        reproduced = r["ran"] and r["failed"] > 0
+        rec = dict(kind=f["kind"], desc='"%s" opts=%r cex=%r' % (f["desc"], o, c), where="Memfs", reproduced=reproduced, replay_outcome=r["out"][-500:])
+        if reproduced:
+            rec["replay"] = save_replay(prop, "c08_wrappers", src, f["desc"], dict(failed=r["failed"]))
+        unit["failures"].append(rec)
+        unit["status"] = "violation"
+    return finish(unit, ex, solver, ob, t0, dict(models_used="Memfs and the traversal executed from MIR; reference listing in Python"))
+
+
+def c08_expected_from(ex, st, flat, root, filt, emin, emax):
+    """sorted reference traversal of the subtree rooted at `root` (depths relative to it)"""
+    sub = [n for n in flat if n["key"] is root["key"] or _under(n, root, flat)]
+    rel = [dict(n) for n in sub]
+    # c08_expected walks from flat[0]: put the root first
+    rel.sort(key=lambda n: 0 if n["key"] is root["key"] else 1)
+    return c08_expected(ex, st, rel, filt, "name", False, emin, emax)
+
+
+def _under(n, root, flat):
+    p = n["parent"]
+    while p is not None:
+        if p is root["key"]:
+            return True
+        q = [m for m in flat if m["key"] is p]
+        p = q[0]["parent"] if q else None
+    return False
